@@ -480,6 +480,30 @@ func (g *Gen) gotoBackwardCaptured(d int) []Stmt {
 		emit(&Call{F: &Index{E: v(fs), K: num(1)}}, &Call{F: &Index{E: v(fs), K: num(1)}}, &Call{F: &Index{E: v(fs), K: num(2)}}, &Call{F: &Index{E: v(fs), K: num(3)}})}}}
 }
 
+// lateClosureJump: the closure that captures a local comes AFTER the goto/break in the text but
+// runs before it (reached by another backward goto): the jump must still close the variable.
+func (g *Gen) lateClosureJump(d int) []Stmt {
+	g.use("jump-before-capturing-closure-in-text")
+	a, b := float64(g.R.Intn(5)), float64(1+g.R.Intn(5))
+	if g.R.Bool() {
+		fns, i, l, m := g.fresh("lf"), g.fresh("li"), g.label(), g.label()
+		return []Stmt{&Local{Names: []string{fns, i}, Es: []Expr{&Table{}, num(a)}},
+			&Do{Body: []Stmt{&Label{L: l}, local1("x", bin("*", v(i), num(b))), &Label{L: m}, set(v(i), bin("+", v(i), num(1))),
+				&If{C: bin("==", v(i), num(a+2)), Then: []Stmt{&Goto{L: l}}},
+				set(&Index{E: v(fns), K: bin("+", &Un{Op: "#", A: v(fns)}, num(1))}, &Func{Body: []Stmt{ret(v("x"))}}),
+				&If{C: bin("==", v(i), num(a+1)), Then: []Stmt{&Goto{L: m}}}}},
+			g.clobber(), emit(&Call{F: &Index{E: v(fns), K: num(1)}}, &Call{F: &Index{E: v(fns), K: num(2)}}, &Un{Op: "#", A: v(fns)})}
+	}
+	f, l, y := g.fresh("lb"), g.label(), g.fresh("ly")
+	var loop Stmt = &While{C: &True{}, Body: []Stmt{local1("x", num(a)), &Label{L: l}, &If{C: v(f), Then: []Stmt{&Break{}}},
+		set(v(f), &Func{Body: []Stmt{set(v("x"), bin("+", v("x"), num(1))), ret(v("x"))}}), &Goto{L: l}}}
+	if g.R.Bool() {
+		loop = &NumFor{X: "k", A: num(1), B: num(3), Body: []Stmt{local1("x", bin("+", v("k"), num(a))), &Label{L: l},
+			&If{C: v(f), Then: []Stmt{&Do{Body: []Stmt{&Break{}}}}}, set(v(f), &Func{Body: []Stmt{set(v("x"), bin("+", v("x"), num(1))), ret(v("x"))}}), &Goto{L: l}}}
+	}
+	return []Stmt{&Do{Body: []Stmt{&Local{Names: []string{f}}, loop, local1(y, num(b+100)), g.clobber(), emit(call(f), v(y), call(f))}}}
+}
+
 // handlerReinstall: a handler removed from a metatable, missed once, and installed again must be
 // honoured again (no stale "this metatable has no such handler" knowledge), for __index,
 // __newindex and __call.
